@@ -8,7 +8,9 @@
 //!           arc_thread | loader | autoreload | autoreload_reloaded | autoreload_fast),
 //!    "api": get_template | template_from_str | template_from_named_str | render_str | render_named_str |
 //!           render_captured | render_captured_to | new_state_block | captured_block | captured_macro, "entry_template", "entry_name": for the State-level APIs}
-//! The environment offers two globals to the templates:
+//! The environment offers these globals to the templates (besides try_block(name) / try_macro(name): host callables
+//! that render a block / call a macro through `&mut State` and swallow the error - the response counts them in
+//! "swallowed" (root cause 'recursion limit exceeded') and "swallowed_other"):
 //!   probe()   - counts its calls (one call per recursion level, placed right before the level
 //!               recurses) and records the address of one of its locals (= native stack position);
 //!   tree      - a list nested `nest` levels deep ([[[...]]]), for recursive loops.
@@ -41,6 +43,34 @@ fn probe() -> usize {
         DEEPEST.store(addr, Ordering::Relaxed);
     }
     n
+}
+
+static SWALLOWED_RECLIMIT: AtomicUsize = AtomicUsize::new(0);
+static SWALLOWED_OTHER: AtomicUsize = AtomicUsize::new(0);
+
+fn swallow(r: Result<String, Error>) -> String {
+    match r {
+        Ok(s) => s,
+        Err(e) => {
+            let (_, _, reclimit) = kinds(&e);
+            if reclimit {
+                SWALLOWED_RECLIMIT.fetch_add(1, Ordering::Relaxed);
+            } else {
+                SWALLOWED_OTHER.fetch_add(1, Ordering::Relaxed);
+            }
+            String::new()
+        }
+    }
+}
+
+/// Host callables of the usual "optional block" kind: they render a block / call a macro through the state they are
+/// handed and SWALLOW a failure, so the render goes on after a refused admission.
+fn try_block(state: &mut minijinja::State, name: &str) -> String {
+    swallow(state.render_block(name))
+}
+
+fn try_macro(state: &mut minijinja::State, name: &str) -> String {
+    swallow(state.call_macro(name, &[]))
 }
 
 fn nested(n: usize) -> Value {
@@ -104,6 +134,8 @@ fn build(cfg: &Cfg, set_limit: bool) -> Result<Environment<'static>, J> {
         }
     }
     env.add_function("probe", probe);
+    env.add_function("try_block", try_block);
+    env.add_function("try_macro", try_macro);
     env.add_global("tree", cfg.tree.clone());
     if cfg.use_loader {
         let map: std::collections::HashMap<String, String> = cfg.templates.iter().cloned().collect();
@@ -129,6 +161,8 @@ fn render_in(env: &Environment<'static>, req: &J) -> J {
     COUNT.store(0, Ordering::Relaxed);
     FIRST.store(0, Ordering::Relaxed);
     DEEPEST.store(usize::MAX, Ordering::Relaxed);
+    SWALLOWED_RECLIMIT.store(0, Ordering::Relaxed);
+    SWALLOWED_OTHER.store(0, Ordering::Relaxed);
     let effective = env.recursion_limit();
     let main = req.get("main").and_then(|x| x.as_str()).unwrap_or("main");
     let api = req.get("api").and_then(|x| x.as_str()).unwrap_or("get_template");
@@ -198,6 +232,8 @@ fn render_in(env: &Environment<'static>, req: &J) -> J {
     out["used"] = json!(used);
     out["span"] = json!(span);
     out["effective_limit"] = json!(effective);
+    out["swallowed"] = json!(SWALLOWED_RECLIMIT.load(Ordering::Relaxed));
+    out["swallowed_other"] = json!(SWALLOWED_OTHER.load(Ordering::Relaxed));
     out
 }
 
